@@ -570,7 +570,11 @@ impl<'a> Stepper<'a> {
             Some(Step::Stopped) => {
                 self.emit("p.stop", "ok=1");
                 // the closer now goes on to policy.close(): serve the policy worker's stop
-                let stopped = self.rig.worker.step_stop(Duration::from_millis(ms));
+                let stopped = self.rig.worker.step_stop(Duration::from_millis(ms.max(300)));
+                // the closer sets the policy's closed flag right after the rendezvous: let it finish
+                for b in self.blocked.iter().filter(|b| b.kind == "close") {
+                    finished_within(&b.handle, 500);
+                }
                 self.emit("w.stop", &format!("ok={}", stopped as u8));
                 self.reap(300);
                 true
